@@ -349,6 +349,8 @@ class HistogramND(HistogramBase):
     def fill(self, value: ArrayLike, weight: float = 1, **kwargs):
         if isinstance(weight, np.integer):
             weight = int(weight)  # weight**2 must not wrap around in a narrow type
+        elif isinstance(weight, np.floating) and weight.dtype.itemsize < 8:
+            weight = float(weight)  # (nor be accumulated in half / single precision)
         self._coerce_dtype(type(weight))
         value_array = np.asarray(value)
         for i, binning in enumerate(self._binnings):
